@@ -118,7 +118,14 @@ void ThreadPool::clear() {
 }
 
 void ThreadPool::stop() {
-    m_isRunning = false;
+    {
+        // the flag is part of the workers' wait predicate: change it under the
+        // same mutex, otherwise a worker that has just evaluated the predicate
+        // but is not blocked yet misses the notification below
+        std::scoped_lock locker(m_queueMutex);
+        m_isRunning = false;
+    }
+
     m_condition.notify_all();
 
     {
